@@ -313,6 +313,9 @@ func (d *FormatDecoder) Next() (interface{}, error) {
 		return e, nil
 
 	case CaFormatACLGroupObj:
+		if hdr.Size != 24 {
+			return nil, InvalidFormat{}
+		}
 		e := FormatACLGroupObj{FormatHeader: hdr}
 		e.Permissions, err = d.r.ReadUint64()
 		if err != nil {
@@ -321,6 +324,9 @@ func (d *FormatDecoder) Next() (interface{}, error) {
 		return e, nil
 
 	case CaFormatACLDefault:
+		if hdr.Size != 48 {
+			return nil, InvalidFormat{}
+		}
 		e := FormatACLDefault{FormatHeader: hdr}
 		e.UserObjPermissions, err = d.r.ReadUint64()
 		if err != nil {
@@ -370,6 +376,9 @@ func (d *FormatDecoder) Next() (interface{}, error) {
 		return FormatGoodbye{FormatHeader: hdr, Items: items}, nil
 
 	case CaFormatIndex:
+		if hdr.Size != 48 {
+			return nil, InvalidFormat{}
+		}
 		e := FormatIndex{FormatHeader: hdr}
 		e.FeatureFlags, err = d.r.ReadUint64()
 		if err != nil {
